@@ -17,10 +17,12 @@
 use vstd::prelude::*;
 use std::convert::TryFrom;
 use std::marker::PhantomData;
+use std::ops::Deref;
 use vstd::std_specs::iter::IteratorSpec;
 
 //@@ DEFINE ENV_REAL
 //@@ INCLUDE gen_types.inc.rs
+pub struct Identifier { _x: u8 }
 
 verus! {
 
@@ -146,10 +148,80 @@ pub uninterp spec fn arm_types(cases: Seq<AST>) -> Set<TrueName>;
 pub fn verif_havoc_arm_types(cases: &Vec<AST>) -> (r: TypeResult<HashSet<TrueName>>)
     ensures r matches Ok(s) ==> hs(s) == arm_types(cases@), r is Err ==> r->Err_0@.len() >= 1,
 { unimplemented!() }
-#[verifier::external_body]
-pub fn constr_col_lookup(expr: &AST, col: &AST, env: &Environment, constr: &mut ConstrBuilder) -> (r: Constrained)
-    ensures mono(*old(constr), *final(constr)), r is Err ==> r->Err_0@.len() >= 1,
-{ unimplemented!() }
+// ---- constr_col_lookup: where a for-variable / comprehension variable is DEFINED (C09) -------------------------------------
+#[verifier::external_type_specification] #[verifier::external_body] pub struct ExIdentifier(Identifier);
+/// the (mutable, name) pairs an identifier pattern binds (Identifier::try_from + fields: iterator code; a function of
+/// the pattern)
+pub uninterp spec fn id_fields(a: AST) -> Seq<(bool, String)>;
+pub uninterp spec fn idf(i: Identifier) -> Seq<(bool, String)>;
+impl Identifier {
+    #[verifier::external_body]
+    pub fn try_from(a: &AST) -> (r: TypeResult<Identifier>) ensures r matches Ok(i) ==> idf(i) == id_fields(*a), r is Err ==> r->Err_0@.len() >= 1 { unimplemented!() }
+    #[verifier::external_body]
+    pub fn fields(&self, pos: Position) -> (r: TypeResult<Vec<(bool, String)>>) ensures r matches Ok(v) ==> v@ == idf(*self), r is Err ==> r->Err_0@.len() >= 1 { unimplemented!() }
+}
+impl StringName {
+    #[verifier::external_body]
+    pub fn from(s: &str) -> StringName { unimplemented!() }
+}
+impl Constraint {
+    #[verifier::external_body]
+    pub fn new(msg: &str, parent: &Expected, child: &Expected) -> Constraint { unimplemented!() }
+}
+impl Position {
+    #[verifier::external_body]
+    pub fn invisible() -> Position { unimplemented!() }
+}
+pub const ITER: &'static str = "__iter__";
+pub const NEXT: &'static str = "__next__";
+pub assume_specification<T>[<Box<T> as From<T>>::from](t: T) -> (r: Box<T>) ensures *r == t;
+
+/// `name` is defined in `e` itself: `e` carries a shadowing offset for it and the entry that offset names — so it is
+/// visible whatever the builder's global mapping says later (lemma_bound_is_visible)
+pub open spec fn bound(e: Environment, name: Seq<char>) -> bool {
+    hm(e.var_mapping).contains_key(name) && hm(e.vars).contains_key(fmt_var(name, hm(e.var_mapping)[name]))
+}
+pub proof fn lemma_bound_is_visible(e: Environment, g: VarMapping, name: Seq<char>)
+    requires bound(e, name),
+    ensures visible(e, g, name),
+{
+}
+/// every name the pattern binds (the first n of them) is defined
+pub open spec fn all_bound(e: Environment, fields: Seq<(bool, String)>, n: int) -> bool {
+    forall|i: int| 0 <= i < n ==> bound(e, (#[trigger] fields[i]).1@)
+}
+/// nothing visible before is lost, nothing but names and shadowing map changes
+pub open spec fn only_defines(env: Environment, e: Environment) -> bool {
+    &&& e == (Environment { vars: e.vars, var_mapping: e.var_mapping, ..env })
+    &&& forall|k: Seq<char>| hm(env.vars).contains_key(k) ==> hm(e.vars).contains_key(k)
+    &&& forall|v: Seq<char>| hm(env.var_mapping).contains_key(v) ==> hm(e.var_mapping).contains_key(v)
+}
+
+//@@ FN src/check/constrain/generate/collection.rs | free | constr_col_lookup | props=C09,C03
+//@@ ITERNAME
+//@@< for (mutable, var) in
+//@@> for (mutable, var) in fit:
+//@@ HINT before
+//@@< for (mutable, var) in
+//@@> let ghost env0 = env; let ghost fs = id_fields(*lookup);
+//@@ HINT before
+//@@< env = env.insert_var($$);
+//@@> let ghost e_prev = env; let ghost k = fit.index@; assert((mutable, var) == fs[k]);
+//@@ HINT after
+//@@< env = env.insert_var($$);
+//@@> proof { assert(bound(env, var@)); assert forall|i: int| 0 <= i < k implies bound(env, (#[trigger] fs[i]).1@) by { assert(bound(e_prev, fs[i].1@)); } }
+//@@ LOOPINV
+//@@< for (mutable, var) in $$.fields($$)?
+//@@> invariant fit.history@ + fit.iter.remaining() == fs, fit.history@.len() == fit.index@, fit.index@ <= fs.len(), mono(*old(constr), *constr), only_defines(env0, env),
+//@@ INVCLAIM
+//@@< for (mutable, var) in $$.fields($$)?
+//@@> all_bound(env, fs, fit.index@), //# loop_every_name_bound_so_far_is_visible [C09]
+    ensures
+        mono(*old(constr), *final(constr)),                                      //# visits_are_never_forgotten [C09]
+        r matches Ok(e) ==> only_defines(*env, e),                               //# lookup_only_defines [C09]
+        r matches Ok(e) ==> all_bound(e, id_fields(*lookup), id_fields(*lookup).len() as int),   //# loop_variable_is_defined_for_the_body [C09]
+        r is Err ==> r->Err_0@.len() >= 1,                                       //# rejection_carries_a_diagnostic [-]
+//@@ END
 /// OUTLINED `envs.into_iter().reduce(|e1, e2| e1.union(&e2))`: the union (see Environment::union) of all arm environments
 #[verifier::external_body]
 pub fn verif_union_all(envs: Vec<Environment>) -> (r: Option<Environment>)
@@ -278,6 +350,99 @@ pub open spec fn flow_post(ast: AST, env: Environment, r: Constrained, b: Constr
         mono(*old(constr), *final(constr)),                  //# visits_are_never_forgotten [C09,C08]
         flow_post(*ast, *env, r, *final(constr)),                                //# definitions_in_branches_and_loops_do_not_escape [C09]
         handle_post(*ast, *env, r, *final(constr)),                              //# handle_extends_the_caught_set_for_the_guarded_expression_only [C08]
+        r is Err ==> r->Err_0@.len() >= 1,                                       //# rejection_carries_a_diagnostic [-]
+//@@ END
+
+// ---- collections and comprehensions (C09: a comprehension variable is visible inside the comprehension only) ------------------
+/// gen_col / gen_col_items (temporaries, unions: fold closures): add constraints, return the environment unchanged (A-EXT)
+#[verifier::external_body]
+pub fn gen_col(collection: &AST, env: &Environment, constr: &mut ConstrBuilder) -> (r: Constrained)
+    ensures mono(*old(constr), *final(constr)), r matches Ok(e) ==> e == *env, r is Err ==> r->Err_0@.len() >= 1,
+{ unimplemented!() }
+/// OUTLINED `conditions.strip_prefix(&[cond.clone()])`: the conditions after the first one
+#[verifier::external_body]
+pub fn verif_strip_first<'a>(conditions: &'a [AST]) -> (r: Option<&'a [AST]>)
+    ensures r matches Some(rest) ==> rest@ == conditions@.skip(1),
+{ unimplemented!() }
+/// OUTLINED `elements.iter().flat_map(|(from, to)| [from.clone(), to.clone()]).collect()`: keys and values, in order
+#[verifier::external_body]
+pub fn verif_flatten_pairs(elements: &Vec<(AST, AST)>) -> (r: Vec<AST>) { unimplemented!() }
+impl AST {
+    #[verifier::external_body]
+    pub fn new(pos: Position, node: Node) -> (r: AST) ensures r.pos == pos, r.node == node { unimplemented!() }
+}
+
+//@@ FN src/check/constrain/generate/collection.rs | free | retrieve_nested_builder_item | props=C09,C03
+//@@ END
+
+pub open spec fn builder_post(item: AST, pair: Option<&AST>, conditions: Seq<AST>, env: Environment, r: Constrained, b: ConstrBuilder) -> bool {
+    if conditions.len() == 0 { r is Err } else {
+        match conditions[0].node {
+            Node::In { left, right } => r matches Ok(e) ==> exists|c: Environment|
+                // the collection is read OUTSIDE the comprehension's scope, the variable is defined from the pattern, item,
+                // second item and every further condition are checked where the variable is visible ...
+                seen(b, *right, env) && all_bound(c, id_fields(*left), id_fields(*left).len() as int)
+                && #[trigger] seen(b, item, c) && (pair matches Some(p) ==> seen(b, *p, c))
+                // ... and the variable does not escape, unless the comprehension itself is a definition pattern
+                && e == (if env.is_def_mode { c } else { env }),
+            _ => r is Err,
+        }
+    }
+}
+
+#[verifier::loop_isolation(false)]
+//@@ FN src/check/constrain/generate/collection.rs | free | gen_builder | props=C09,C03
+//@@ REPLACE
+//@@< conditions.strip_prefix(&[cond.clone()])
+//@@> verif_strip_first(conditions)
+//@@ HINT after
+//@@< let $ce = constr_col_lookup($$)?;
+//@@> let ghost c_g = $ce;
+//@@ HINT after
+//@@< generate(right, $$, ctx, constr)?;
+//@@> let ghost right_in: Environment = *($$1); assert(seen(*constr, **right, right_in));
+//@@ HINT after
+//@@< generate(item, $$, ctx, constr)?;
+//@@> let ghost item_in: Environment = *($$1); assert(seen(*constr, *item, item_in));
+//@@ HINT before
+//@@< Ok($$) } else { Err(
+//@@> assert(cond == conditions@[0]); assert(seen(*constr, *item, item_in) && seen(*constr, **right, right_in));
+//@@ HINT before
+//@@< if let Some(conditions) = $$ { for
+//@@> let ghost b_mid = *constr;
+//@@ ITERNAME
+//@@< for cond in conditions
+//@@> for cond in cit2: conditions
+//@@ LOOPINV
+//@@< for cond in conditions
+//@@> invariant mono(*old(constr), *constr), mono(b_mid, *constr),
+    ensures
+        mono(*old(constr), *final(constr)),                                      //# visits_are_never_forgotten [C09]
+        builder_post(*item, pair, conditions@, *env, r, *final(constr)),         //# comprehension_variable_is_visible_inside_only [C09]
+        r is Err ==> r->Err_0@.len() >= 1,                                       //# rejection_carries_a_diagnostic [-]
+//@@ END
+
+pub open spec fn coll_post(ast: AST, env: Environment, r: Constrained, b: ConstrBuilder) -> bool {
+    match ast.node {
+        Node::Set { elements } => r matches Ok(e) ==> e == env && forall|i: int| 0 <= i < elements@.len() ==> seen(b, #[trigger] elements@[i], env),
+        Node::List { elements } => r matches Ok(e) ==> e == env && forall|i: int| 0 <= i < elements@.len() ==> seen(b, #[trigger] elements@[i], env),
+        Node::Dict { elements } => r matches Ok(e) ==> e == env,
+        // a tuple is a definition pattern in definition mode (its names are carried out), a value otherwise
+        Node::Tuple { elements } => r matches Ok(e) ==> (!env.is_def_mode ==> e == env),
+        Node::DictBuilder { from, to, conditions } => r matches Ok(e) ==> (!env.is_def_mode ==> e == env),
+        Node::SetBuilder { item, conditions } => r matches Ok(e) ==> (!env.is_def_mode ==> e == env),
+        Node::ListBuilder { item, conditions } => r matches Ok(e) ==> (!env.is_def_mode ==> e == env),
+        _ => r is Err,
+    }
+}
+
+//@@ FN src/check/constrain/generate/collection.rs | free | gen_coll | props=C09,C03
+//@@ REPLACE
+//@@< elements .iter() .flat_map(|($f, $t)| [$f.clone(), $t.clone()]) .collect()
+//@@> verif_flatten_pairs(elements)
+    ensures
+        mono(*old(constr), *final(constr)),                                      //# visits_are_never_forgotten [C09]
+        coll_post(*ast, *env, r, *final(constr)),                                //# collection_elements_are_checked_here_and_nothing_escapes [C09]
         r is Err ==> r->Err_0@.len() >= 1,                                       //# rejection_carries_a_diagnostic [-]
 //@@ END
 
